@@ -313,9 +313,12 @@ def guarded(ctx, clause, fn, where=None, **detail):
         tb = traceback.extract_tb(e.__traceback__)
         site = ""
         for fr in reversed(tb):
-            if "quantarhei" in fr.filename:
+            if os.path.abspath(fr.filename).startswith(REPO + os.sep):
                 site = "%s:%s" % (os.path.basename(fr.filename), fr.name)
                 break
+        if not site:
+            # no frame of the code under test in the traceback: the harness itself is at fault
+            raise HarnessError("%s in harness code while checking %s: %s" % (type(e).__name__, clause, e))
         ctx.fail(clause + "/raises", where, exc=type(e).__name__, msg=str(e)[:200], site=site, **detail)
         return False, None
 
